@@ -27,6 +27,12 @@ class NotEvaluable(AnalysisError):
     pass
 
 
+_PURE_METHODS = {'startswith', 'endswith', 'split', 'rsplit', 'strip',
+                 'lstrip', 'rstrip', 'lower', 'upper', 'find', 'index',
+                 'count', 'replace', 'partition', 'rpartition', 'isdigit',
+                 'splitlines', 'join'}
+
+
 class Obj:
     __slots__ = ('tag',)
 
@@ -235,6 +241,15 @@ class Evaluator:
         if isinstance(e, ast.Subscript):
             base = self.ev(e.value)
             if isinstance(base, (tuple, bytes, str)) and \
+                    isinstance(e.slice, ast.Slice):
+                parts = []
+                for p_ in (e.slice.lower, e.slice.upper, e.slice.step):
+                    parts.append(None if p_ is None else self.ev(p_))
+                if all(x is None or (isinstance(x, int) and
+                                     not isinstance(x, bool)) for x in parts):
+                    return base[slice(*parts)]
+                return Unknown(key)
+            if isinstance(base, (tuple, bytes, str)) and \
                     not isinstance(e.slice, ast.Slice):
                 i = self.ev(e.slice)
                 if isinstance(i, int):
@@ -345,6 +360,30 @@ class Evaluator:
             except NotEvaluable:
                 args.append((kw.arg, Unknown(unparse(kw.value))))
         targs = tuple(args)
+        # pure methods of concrete str / bytes / tuple values are folded
+        if isinstance(e.func, ast.Attribute) and \
+                e.func.attr in _PURE_METHODS and not e.keywords:
+            try:
+                recv = self.ev(e.func.value)
+            except NotEvaluable:
+                recv = None
+            if isinstance(recv, (str, bytes, tuple)) and \
+                    not isinstance(recv, bool) and all(
+                        isinstance(a, (str, bytes, int, tuple, type(None)))
+                        for a in targs):
+                try:
+                    r = getattr(recv, e.func.attr)(*targs)
+                except Exception as exc:
+                    raise _Raise(type(exc).__name__, e)
+                if isinstance(r, list):
+                    r = tuple(r)
+                return r
+        if fname == 'enumerate' and len(targs) == 1 and \
+                isinstance(targs[0], (str, bytes, tuple)):
+            seq = targs[0]
+            if isinstance(seq, bytes):
+                seq = tuple(seq[i:i + 1] for i in range(len(seq)))
+            return tuple(enumerate(seq))
         self.calls.append((fname, targs))
         if fname == 'len' and len(targs) == 1 and \
                 isinstance(targs[0], (tuple, bytes, str, frozenset)):
